@@ -53,7 +53,7 @@ Definition TsF_enc (s : float) : option (Z * Z) :=
    (dec = -1: NaN; enc_sec = -1: pack raised) *)
 Record TsF_case := { tc_sec : Z; tc_ns : Z; tc_dec_bits : Z; tc_enc_sec : Z; tc_enc_ns : Z }.
 
-Definition TsF_fval_code (v : Codec_fval) : Z := match v with FInt b => b | FNaN => -1 end.
+Definition TsF_fval_code (v : Codec_fval) : Z := match v with FInt b => b | FNaN => -1 | FBytes _ => -2 end.
 Definition TsF_pair_eqb (o : option (Z * Z)) (s n : Z) : bool :=
   match o with Some (a, b) => (a =? s) && (b =? n) | None => s =? -1 end.
 
@@ -65,6 +65,7 @@ Definition TsF_case_agree (c : TsF_case) : bool :=
   (TsF_fval_code vz =? c.(tc_dec_bits)) && (TsF_fval_code vf =? c.(tc_dec_bits)) &&
   TsF_pair_eqb (match Codec_ts_enc vz with Some z' => Some (Codec_ts_sec z', Codec_ts_ns z') | None => None end) c.(tc_enc_sec) c.(tc_enc_ns) &&
   match vf with
+  | FBytes _ => false
   | FNaN => (c.(tc_enc_sec) =? ts_invalid) && (c.(tc_enc_ns) =? ts_invalid)
   | FInt b => TsF_pair_eqb (TsF_enc (TsF_of_bits b)) c.(tc_enc_sec) c.(tc_enc_ns)
   end.
